@@ -2252,6 +2252,23 @@ func (r *Run) doNack() *Violation {
 		return nil
 	}
 	_, ids := r.pickAckIDs()
+	if r.T.Bool(25) {
+		// a client that shuts down releases everything it holds, on all its subscriptions, in
+		// one request: deliveries of different subscriptions (different retry and dead-letter
+		// policies) at equal attempt numbers meet in one batch
+		ids = nil
+		for _, s := range r.M.AllSubs {
+			if !s.Live {
+				continue
+			}
+			for _, e := range s.EDs {
+				if e.State == stOut && e.AckID != "" && len(ids) < 40 {
+					ids = append(ids, e.AckID)
+				}
+			}
+		}
+		r.stat("nack_release_all")
+	}
 	var us []uuid.UUID
 	var good []string
 	for _, id := range ids {
